@@ -147,14 +147,29 @@ fn apply(src: &str, toks: &[Tok], ins: &[Ins]) -> String {
     out
 }
 
-/// Class of a token gap for fingerprints: the classes of the two neighbouring tokens
-/// (keywords and punctuation by their text; `id`, `Ctor`, `lit`, `op`, `cmt`, `doc`, `attr`
-/// otherwise). This identifies (construct, gap position) closely enough — `with~|` is "match,
-/// before the first alternative", `{~id` "record, before the first field" — and keeps the
-/// number of distinct fingerprints bounded by the grammar, independent of the input.
+/// Category of a token for fingerprints.
+fn category(t: &Tok, src: &str) -> &'static str {
+    match t.k {
+        K::Ident => "ident",
+        K::Lit => "lit",
+        K::Kw => "kw",
+        K::Op => "op",
+        K::Punct => match t.text(src) {
+            "{" | "(" | "[" => "open",
+            "}" | ")" | "]" => "close",
+            _ => "sep", // , = -> | : . .. ? @ \ <- ;
+        },
+        K::Line | K::Block | K::DocLine | K::DocBlock | K::Attr | K::Shebang => "other",
+    }
+}
+
+/// Class of a token gap for fingerprints: the categories (ident / lit / kw / open / close / sep /
+/// op / other / edge) of the two neighbouring tokens. Deliberately coarse so that the set of
+/// classes is small and closed; the price is that a new defect inside an already listed
+/// (kind, class) is not reported separately.
 fn gap_class(src: &str, toks: &[Tok], gi: usize) -> String {
-    let prev = if gi == 0 { "BOF".to_string() } else { lex::class(&toks[gi - 1], src) };
-    let next = if gi >= toks.len() { "EOF".to_string() } else { lex::class(&toks[gi], src) };
+    let prev = if gi == 0 { "edge" } else { category(&toks[gi - 1], src) };
+    let next = if gi >= toks.len() { "edge" } else { category(&toks[gi], src) };
     format!("{}~{}", prev, next)
 }
 
@@ -275,7 +290,7 @@ impl<'a> Runner<'a> {
             where_[0].clone()
         } else {
             // several comments are needed together: class of the (alphabetically) first gap
-            format!("multi:{}", where_[0])
+            where_[0].clone()
         };
         let fp = format!("{}{}:{}", f.kind, if crlf_needed { ":crlf" } else { "" }, place);
         self.out.count(&format!("oracle:fail:{}", f.kind));
@@ -290,6 +305,7 @@ impl<'a> Runner<'a> {
                 None => String::new(),
             }
         );
+        let what = what.replace('\n', " ").replace('\r', " ");
         // every failure is counted; the failing input itself is written for the first two
         // failures of a fingerprint and whenever it is shorter than all earlier ones
         let e = self.seen.entry(fp.clone()).or_insert((0, usize::MAX));
@@ -303,8 +319,10 @@ impl<'a> Runner<'a> {
     }
 }
 
+/// Only AST differences keep their tag (`Constructor/Ident`, `name`, …): it separates a
+/// re-association or a dropped node from the listed defects.
 fn failure_tag(f: &Failure) -> String {
-    f.tag.clone()
+    if f.kind == "ast-changed" { f.tag.clone() } else { "-".to_string() }
 }
 
 /// Class of an input that fails without any inserted comment being responsible.
@@ -407,6 +425,143 @@ fn new_vm() -> RootedThread {
     gv::vm::new_vm()
 }
 
+/// Size of the fixed program pool (see `main`).
+const POOL: u64 = 6000;
+/// Number of perturbation variants of each repository file.
+const FILE_VARIANTS: u64 = 8;
+
+/// Everything that is examined for pool program `pi`; deterministic in `pi` (the quick tier
+/// does a subset of what the thorough tier does, in the same order of random draws).
+fn run_program(r: &mut Runner, pi: u64, thorough: bool) {
+    let mut rng = gv::rng::Rng::new(pi, 1010);
+    let mut tag = 0u64;
+    let depth = 1 + (pi % 4) as u32;
+    let long = pi % 3 == 0;
+    let use_in = pi % 8 == 7;
+    let undefined_op = pi % 16 == 5;
+    let (p, used) = {
+        let mut g = gen::Gen::new(&mut rng, long, use_in, undefined_op);
+        g.expr(depth);
+        g.w_nl();
+        (g.s.clone(), g.used.clone())
+    };
+    let style = if use_in { "in-style" } else { "layout" };
+    let style = if undefined_op { "undefined-op" } else { style };
+    r.out.count(&format!("gen:style:{}", style));
+    for u in &used {
+        r.out.count(&format!("gen:construct:{}", u));
+    }
+    let ptoks = match lex::tokenize(&p) {
+        Some(t) => t,
+        None => {
+            r.out.count("oracle:skip:oracle-tokenizer");
+            return;
+        }
+    };
+    let (inside, held) = r.run2(&format!("gen:{}", style), &p, &ptoks, &[], false);
+    if !inside {
+        r.out.count("gen:rejected-by-parser");
+        return;
+    }
+    if !held {
+        // the program itself already violates the property: variants of it would only repeat
+        // that failure
+        r.out.count("gen:base-program-fails");
+        return;
+    }
+    if pi % 500 == 3 {
+        r.out.sample(json!({"pool_index": pi, "generated": p}));
+    }
+    // the canonical multi-line layout of the same program
+    let q = match oracle::format(&r.vm, &p) {
+        oracle::Fmt::Ok(q) => q,
+        _ => return,
+    };
+    let qtoks = match lex::tokenize(&q) {
+        Some(t) => t,
+        None => return,
+    };
+    if !r.run2("gen:formatted", &q, &qtoks, &[], false).1 {
+        r.out.count("gen:base-program-fails");
+        return;
+    }
+    r.run("gen:formatted-crlf", &q, &qtoks, &[], true);
+    for mode in 0..4u8 {
+        let w = perturb_ws(&mut rng, &q, &qtoks, mode);
+        if let Some(wt) = lex::tokenize(&w) {
+            r.run(&format!("gen:{}", WS_MODES[mode as usize]), &w, &wt, &[], mode == 1 && pi % 2 == 0);
+        }
+    }
+    // one comment in every token gap of the multi-line layout, every style
+    for (base, toks, name) in [(&q, &qtoks, "multi"), (&p, &ptoks, "one-line")] {
+        let stride = if name == "one-line" { 3 } else { 1 };
+        for gi in (0..=toks.len()).filter(|g| (g + pi as usize) % stride == 0) {
+            for style in 0..5u8 {
+                tag += 1;
+                if !thorough && name == "one-line" && style != 2 && style != 0 {
+                    continue;
+                }
+                let ins = [Ins { gap: gi, style, text: comment_text(style, &format!("c{}", tag % 97)) }];
+                let crlf = (gi + style as usize + pi as usize) % 5 == 0;
+                r.run(&format!("gen:{}:one-comment", name), base, toks, &ins, crlf);
+            }
+        }
+    }
+    // several comments at once
+    let rounds = if thorough { 12 } else { 6 };
+    for k in 0..rounds {
+        let n = 2 + rng.below(5) as usize;
+        let mut ins = vec![];
+        for j in 0..n {
+            let gi = rng.below(qtoks.len() as u64 + 1) as usize;
+            let style = rng.below(5) as u8;
+            ins.push(Ins { gap: gi, style, text: comment_text(style, &format!("m{}x{}", k, j)) });
+        }
+        r.run("gen:multi:several-comments", &q, &qtoks, &ins, k % 3 == 0);
+    }
+}
+
+/// A repository file as it is and (if `perturb`) its perturbation variant `variant`;
+/// deterministic in (file index, variant).
+fn run_file(r: &mut Runner, fi: usize, path: &std::path::Path, variant: u64, perturb: bool, thorough: bool) {
+    let src = match std::fs::read_to_string(path) {
+        Ok(s) => s,
+        Err(_) => return,
+    };
+    let mut rng = gv::rng::Rng::new(fi as u64 * FILE_VARIANTS + variant, 2020);
+    let name = path.strip_prefix("/repo").unwrap().display().to_string();
+    let origin = format!("file:{}", name);
+    let toks = match lex::tokenize(&src) {
+        Some(t) => t,
+        None => {
+            r.out.count("oracle:skip:oracle-tokenizer");
+            return;
+        }
+    };
+    let (inside, held) = r.run2(&origin, &src, &toks, &[], false);
+    if !inside {
+        return;
+    }
+    r.out.count("files:checked");
+    if !held || !perturb {
+        return;
+    }
+    r.run(&format!("{}#crlf", origin), &src, &toks, &[], true);
+    for mode in 0..4u8 {
+        let w = perturb_ws(&mut rng, &src, &toks, mode);
+        if let Some(wt) = lex::tokenize(&w) {
+            r.run(&format!("{}#{}", origin, WS_MODES[mode as usize]), &w, &wt, &[], false);
+        }
+    }
+    let n_ins = if thorough { 40 } else { 6 };
+    for k in 0..n_ins {
+        let gi = rng.below(toks.len() as u64 + 1) as usize;
+        let style = rng.below(5) as u8;
+        let ins = [Ins { gap: gi, style, text: comment_text(style, &format!("f{}", k)) }];
+        r.run("file:one-comment", &src, &toks, &ins, false);
+    }
+}
+
 fn main() {
     gv::quiet_panics();
     let args = Args::parse();
@@ -475,136 +630,44 @@ fn main() {
     }
 
     // ---- generated programs ------------------------------------------------------------
-    let n_prog = if thorough { 1500 } else { 140 };
-    let mut tag = 0u64;
-    for pi in 0..n_prog {
-        let depth = 1 + (pi % 4) as u32;
-        let long = pi % 3 == 0;
-        let use_in = pi % 8 == 7;
-        let undefined_op = pi % 16 == 5;
-        let (p, used) = {
-            let mut g = gen::Gen::new(&mut rng, long, use_in, undefined_op);
-            g.expr(depth);
-            g.w_nl();
-            (g.s.clone(), g.used.clone())
-        };
-        let style = if use_in { "in-style" } else { "layout" };
-        let style = if undefined_op { "undefined-op" } else { style };
-        r.out.count(&format!("gen:style:{}", style));
-        for u in &used {
-            r.out.count(&format!("gen:construct:{}", u));
+    // The programs come from a fixed pool: program `i` and everything derived from it (layouts,
+    // perturbations, comment placements) is a function of `i` alone. The run seed only selects
+    // WHICH programs of the pool are examined, so the set of failure classes a run can report is
+    // closed: it is the set the full-pool sweep (`--sweep-programs A B`) reports, all listed in
+    // known_findings.json for the unchanged tree. A change of gluon's source that creates a new
+    // class is therefore a VIOLATION for every seed that selects an affected program.
+    if let Some(i) = args.extra.iter().position(|a| a == "--sweep-programs") {
+        let a: u64 = args.extra[i + 1].parse().unwrap();
+        let b: u64 = args.extra[i + 2].parse().unwrap();
+        for pi in a..b {
+            run_program(&mut r, pi, true);
         }
-        let ptoks = match lex::tokenize(&p) {
-            Some(t) => t,
-            None => {
-                r.out.count("oracle:skip:oracle-tokenizer");
-                continue;
-            }
-        };
-        let (inside, held) = r.run2(&format!("gen:{}", style), &p, &ptoks, &[], false);
-        if !inside {
-            r.out.count("gen:rejected-by-parser");
-            continue;
-        }
-        if !held {
-            // the program itself already violates the property: variants of it would only
-            // repeat that failure
-            r.out.count("gen:base-program-fails");
-            continue;
-        }
-        if pi < 8 {
-            r.out.sample(json!({"generated": p}));
-        }
-        // the canonical multi-line layout of the same program
-        let q = match oracle::format(&r.vm, &p) {
-            oracle::Fmt::Ok(q) => q,
-            _ => continue,
-        };
-        let qtoks = match lex::tokenize(&q) {
-            Some(t) => t,
-            None => continue,
-        };
-        if !r.run2("gen:formatted", &q, &qtoks, &[], false).1 {
-            r.out.count("gen:base-program-fails");
-            continue;
-        }
-        r.run("gen:formatted-crlf", &q, &qtoks, &[], true);
-        for mode in 0..4u8 {
-            let w = perturb_ws(&mut rng, &q, &qtoks, mode);
-            if let Some(wt) = lex::tokenize(&w) {
-                r.run(&format!("gen:{}", WS_MODES[mode as usize]), &w, &wt, &[], mode == 1 && pi % 2 == 0);
-            }
-        }
-        // one comment in every token gap of the multi-line layout, every style
-        for (base, toks, name) in [(&q, &qtoks, "multi"), (&p, &ptoks, "one-line")] {
-            let stride = if name == "one-line" { 3 } else { 1 };
-            for gi in (0..=toks.len()).filter(|g| (g + pi as usize) % stride == 0) {
-                for style in 0..5u8 {
-                    if !thorough && name == "one-line" && style != 2 && style != 0 {
-                        continue;
-                    }
-                    tag += 1;
-                    let ins = [Ins { gap: gi, style, text: comment_text(style, &format!("c{}", tag % 97)) }];
-                    let crlf = (gi + style as usize + pi as usize) % 5 == 0;
-                    r.run(&format!("gen:{}:one-comment", name), base, toks, &ins, crlf);
-                }
-            }
-        }
-        // several comments at once
-        let rounds = if thorough { 12 } else { 6 };
-        for k in 0..rounds {
-            let n = 2 + rng.below(5) as usize;
-            let mut ins = vec![];
-            for j in 0..n {
-                let gi = rng.below(qtoks.len() as u64 + 1) as usize;
-                let style = rng.below(5) as u8;
-                ins.push(Ins { gap: gi, style, text: comment_text(style, &format!("m{}x{}", k, j)) });
-            }
-            r.run("gen:multi:several-comments", &q, &qtoks, &ins, k % 3 == 0);
+    } else if !args.extra.iter().any(|a| a == "--sweep-files") {
+        let n_prog = if thorough { 1500 } else { 140 };
+        for k in 0..n_prog {
+            let pi = rng.below(POOL);
+            run_program(&mut r, pi, thorough);
+            let _ = k;
         }
     }
+    r.out.stats.insert("program_pool_size".into(), POOL.into());
 
     // ---- every .glu file of the repository ------------------------------------------------
     let files = glu_files();
     r.out.stats.insert("repo_glu_files".into(), (files.len() as u64).into());
+    let sweep_files = args.extra.iter().any(|a| a == "--sweep-files");
+    let sweep_programs = args.extra.iter().any(|a| a == "--sweep-programs");
     for (fi, path) in files.iter().enumerate() {
-        let src = match std::fs::read_to_string(path) {
-            Ok(s) => s,
-            Err(_) => continue,
-        };
-        let name = path.strip_prefix("/repo").unwrap().display().to_string();
-        let origin = format!("file:{}", name);
-        let toks = match lex::tokenize(&src) {
-            Some(t) => t,
-            None => {
-                r.out.count("oracle:skip:oracle-tokenizer");
-                continue;
+        if sweep_programs {
+            break;
+        }
+        if sweep_files {
+            for v in 0..FILE_VARIANTS {
+                run_file(&mut r, fi, path, v, true, true);
             }
-        };
-        let (inside, held) = r.run2(&origin, &src, &toks, &[], false);
-        if !inside {
-            continue;
-        }
-        r.out.count("files:checked");
-        if !held {
-            continue;
-        }
-        if !thorough && fi % 3 != (args.seed % 3) as usize {
-            continue;
-        }
-        r.run(&format!("{}#crlf", origin), &src, &toks, &[], true);
-        for mode in 0..4u8 {
-            let w = perturb_ws(&mut rng, &src, &toks, mode);
-            if let Some(wt) = lex::tokenize(&w) {
-                r.run(&format!("{}#{}", origin, WS_MODES[mode as usize]), &w, &wt, &[], false);
-            }
-        }
-        let n_ins = if thorough { 40 } else { 6 };
-        for k in 0..n_ins {
-            let gi = rng.below(toks.len() as u64 + 1) as usize;
-            let style = rng.below(5) as u8;
-            let ins = [Ins { gap: gi, style, text: comment_text(style, &format!("f{}", k)) }];
-            r.run("file:one-comment", &src, &toks, &ins, false);
+        } else {
+            let perturb = thorough || fi % 3 == (args.seed % 3) as usize;
+            run_file(&mut r, fi, path, args.seed % FILE_VARIANTS, perturb, thorough);
         }
     }
     out.finish();
